@@ -81,14 +81,16 @@ type ReqCtx struct {
 	// RootTok is the expected root token, Vars the variables as supplied.
 	RootTok Tok
 
-	mu     sync.Mutex
-	Log    []string       // R+path R-path T+path T-path RT:path IT:path
-	Fired  map[string]int // fault kind -> times it actually fired
-	Seen   map[string]int // resolver invocations per response path
-	Bad    []string       // parameter-accuracy violations found locally (C20)
-	ArgLog map[string]string
-	Check  func(rc *ReqCtx, p *graphql.ResolveParams, path string) // optional extra check (C20)
-	Ext    *ExtRun                                                 // when set, resolver events are mirrored into the extension log
+	mu      sync.Mutex
+	Log     []string          // R+path R-path T+path T-path RT:path IT:path
+	Fired   map[string]int    // fault kind -> times it actually fired
+	Seen    map[string]int    // resolver invocations per response path
+	Bad     []string          // parameter-accuracy violations found locally (C20)
+	FiredAt []string          // "<kind>@<path>" of every fault that fired, in order
+	Types   map[string]string // declared return type of every resolved field position
+	ArgLog  map[string]string
+	Check   func(rc *ReqCtx, p *graphql.ResolveParams, path string) // optional extra check (C20)
+	Ext     *ExtRun                                                 // when set, resolver events are mirrored into the extension log
 }
 
 type reqKey struct{}
@@ -113,12 +115,15 @@ func (rc *ReqCtx) logf(s string) {
 	rc.mu.Unlock()
 }
 
-func (rc *ReqCtx) fire(kind string) {
+func (rc *ReqCtx) fire(kind string, path ...string) {
 	rc.mu.Lock()
 	if rc.Fired == nil {
 		rc.Fired = map[string]int{}
 	}
 	rc.Fired[kind]++
+	if len(path) > 0 {
+		rc.FiredAt = append(rc.FiredAt, kind+"@"+path[0])
+	}
 	rc.mu.Unlock()
 }
 
@@ -541,6 +546,10 @@ func (w *World) resolverInner(coord string) graphql.FieldResolveFn {
 			rc.Seen = map[string]int{}
 		}
 		rc.Seen[path]++
+		if rc.Types == nil {
+			rc.Types = map[string]string{}
+		}
+		rc.Types[path] = p.Info.ReturnType.String()
 		rc.Log = append(rc.Log, "R+"+path)
 		rc.mu.Unlock()
 		if rc.Check != nil {
@@ -558,7 +567,7 @@ func (w *World) resolverInner(coord string) graphql.FieldResolveFn {
 		}
 		val := func() interface{} { return w.gen(rc, p.Info.ReturnType, coord, path, p.Args) }
 		if fault != "" {
-			rc.fire(fault)
+			rc.fire(fault, path)
 		}
 		if strings.HasPrefix(fault, FErrMsg) {
 			return nil, errors.New(fault[len(FErrMsg):])
@@ -592,13 +601,13 @@ func (w *World) resolverInner(coord string) graphql.FieldResolveFn {
 				}
 				switch tf {
 				case FThunkErr, FErr:
-					rc.fire("T:" + FErr)
+					rc.fire("T:"+FErr, path)
 					return nil, fmt.Errorf("thunk boom %s", path)
 				case FThunkPanic, FPanicErr:
-					rc.fire("T:" + FPanicErr)
+					rc.fire("T:"+FPanicErr, path)
 					panic(fmt.Errorf("thunk panic %s", path))
 				case FThunkNil, FNil:
-					rc.fire("T:" + FNil)
+					rc.fire("T:"+FNil, path)
 					return nil, nil
 				}
 				return val(), nil
@@ -649,7 +658,7 @@ func (w *World) resolveType(p graphql.ResolveTypeParams, abstract string) *graph
 		rc.logf("RT:" + path)
 		w.gate(rc, "rtype:"+abstract, path)
 		if f := rc.Faults["RT@"+path]; f != "" {
-			rc.fire(f)
+			rc.fire(f, path)
 			switch f {
 			case FRTNil:
 				return nil
@@ -679,10 +688,10 @@ func (w *World) isTypeOf(p graphql.IsTypeOfParams, name string) bool {
 		if f := rc.Faults["IT@"+path]; f != "" {
 			switch f {
 			case FITFalse:
-				rc.fire(f)
+				rc.fire(f, path)
 				return false
 			case FITPanic:
-				rc.fire(f)
+				rc.fire(f, path)
 				panic(fmt.Errorf("isTypeOf panic %s", path))
 			}
 		}
